@@ -84,7 +84,7 @@ type result struct {
 
 var base = map[string]string{
 	"q": "'", "d": "\"", "b": "`", "k": "\\", "D": "$", "E": "E", "m": "-", "s": "/", "a": "*",
-	"n": "\n", "r": "\r", "_": "\t", "w": "z", "u": "é", ";": ";", "P": "__STR_0__", "J": "__IDENT_0__", "~": " ",
+	"n": "\n", "r": "\r", "_": "\t", "w": "z", "u": "é", "W": "Z", "9": "1", "U": "_", ";": ";", "P": "__STR_0__", "J": "__IDENT_0__", "~": " ",
 }
 
 var syms map[string]string
